@@ -48,7 +48,7 @@ func checkC09(t *testing.T, sc *Scenario, rec *Recorder) []Diff {
 		return nil
 	}
 	// what did the capture handle actually hand to the tool?
-	rawRead, validRead, permitted, onTuple := 0, 0, false, false
+	rawRead, validRead, permitted, onTuple, noBlockOnTuple := 0, 0, false, false, false
 	genuine := map[string]bool{}
 	for _, p := range o.Wire.all {
 		if p.tag.Class == "genuine" || p.tag.Class == "handshake" {
@@ -90,6 +90,9 @@ func checkC09(t *testing.T, sc *Scenario, rec *Recorder) []Diff {
 			if ip, err := lenientIP(e.Data); err == nil && ip.Proto == ProtoTCP && ip.Src.String() == target && ip.Dst.String() == local && len(ip.Payload) >= 20 {
 				if binary.BigEndian.Uint16(ip.Payload[0:]) == tport && binary.BigEndian.Uint16(ip.Payload[2:]) == lport {
 					onTuple = true
+					if !hasCleanSackCapability(ip.Payload) {
+						noBlockOnTuple = true
+					}
 				}
 			}
 		}
@@ -98,8 +101,11 @@ func checkC09(t *testing.T, sc *Scenario, rec *Recorder) []Diff {
 	// blocks", which the tool reports as NotSupportedError. A hostile segment on the connection's own
 	// tuple is indistinguishable from the target's, so that outcome is accepted for it; any other error
 	// class (the tool noticed the packet is malformed and aborted instead of skipping it) is not.
+	// It is only accepted when such a segment really lacked a usable block: a segment whose option list decodes
+	// cleanly and holds a SACK option with at least one complete block is a selective acknowledgement, and
+	// "SACK not supported" is not a permitted answer to it (the complete blocks are usable, stray bytes are not).
 	var nse *sack.NotSupportedError
-	permitted = onTuple && o.Err != nil && errors.As(o.Err, &nse)
+	permitted = onTuple && noBlockOnTuple && o.Err != nil && errors.As(o.Err, &nse)
 	nt := rawRead > 0
 	var ds []Diff
 	if o.Err != nil || o.Run == nil {
@@ -323,6 +329,33 @@ func genTCPOptions(t *rapid.T, label string) []byte {
 
 // TestC09TCPOptions enumerates option kinds x declared lengths x positions on the SACK handshake SYN-ACK
 // and on the SACK duplicate ACK.
+// hasCleanSackCapability: the segment is not a SYN, its TCP header and option list decode without error and a
+// SACK option with at least one complete 8-byte block is present. (A hostile SYN-ACK on the connection's
+// tuple is indistinguishable from the target's own and may replace the handshake altogether - other
+// sequence numbers, no SACK-permitted - so whatever "not supported" follows from it is accepted.)
+func hasCleanSackCapability(seg []byte) bool {
+	if len(seg) < 20 {
+		return false
+	}
+	doff := int(seg[12]>>4) * 4
+	if doff < 20 || doff > len(seg) {
+		return false
+	}
+	opts, err := ParseTCPOptions(seg[20:doff])
+	if err != nil {
+		return false
+	}
+	if seg[13]&TCPSyn != 0 {
+		return false
+	}
+	for _, o := range opts {
+		if o.Kind == 5 && len(o.Data) >= 8 {
+			return true
+		}
+	}
+	return false
+}
+
 func TestC09TCPOptions(t *testing.T) {
 	rec := NewRecorder("C09", "C09TCPOptions", "enumeration: TCP option kind in {2,3,4,5,8,30} x declared length 0..12,18,26,34 x {alone, after SACK-permitted, after two NOPs} replacing the options of the SACK handshake SYN-ACK and of the duplicate ACK; exhaustive over that product; same oracle")
 	rec.Exhaustive = true
